@@ -124,6 +124,8 @@ impl<'a> Gen<'a> {
         };
         let n = if self.rng.chance(1, 2) { self.rng.range(2, 8) } else { self.rng.range(6, cap) };
         let spine = self.rng.chance(1, self.spine_odds);
+        // one tree in ten holds a few named pipes among its files
+        let specials = self.rng.chance(1, 10);
         let max_depth = if spine { 13 } else { self.rng.range(2, 6) };
         let mut tree: Vec<Node> = Vec::new();
         let mut dirs: Vec<String> = vec![String::new()];
@@ -145,6 +147,10 @@ impl<'a> Gen<'a> {
             let can_dir = depth_of(&path) < max_depth;
             let kind = if can_dir && self.rng.chance(if spine { 8 } else { 5 }, 10) {
                 Kind::Dir
+            }
+            else if specials && self.rng.chance(1, 4) {
+                // an entry that is neither file, directory nor link
+                Kind::Fifo
             }
             else {
                 Kind::File
